@@ -528,7 +528,9 @@ class DataFileManager:
         float32_fields = {
             str(f["name"]) for f in iceberg_schema.fields if f.get("type") == "float"
         }
-        float32_max = 3.4028235677973366e38
+        # Smallest magnitude that rounds to infinity as a 32-bit float (half-way
+        # between FLT_MAX and 2**128; the tie rounds to even, i.e. up).
+        float32_overflow = 3.4028235677973366e38
 
         for i, record in enumerate(records):
             unknown = {str(k) for k in record.keys()} - allowed
@@ -558,7 +560,7 @@ class DataFileManager:
                     and not isinstance(value, bool)
                     and value == value
                     and value not in (float("inf"), float("-inf"))
-                    and abs(value) > float32_max
+                    and abs(value) >= float32_overflow
                 ):
                     raise ValueError(
                         f"Record {i}: value {value!r} for 32-bit float field '{name}' is out of "
